@@ -26,6 +26,7 @@
     xml_qname_of_expat_name_partial xml_plain_name xml_brace_uri_loses_its_brace
     html_event_kinds
     entity_table_resolves xml_html_entities_resolve merged_forest_is_normal
+    open_tags_is_nesting_stack
 -/
 import Genshi.Lemmas.ParseHtml
 import Genshi.Lemmas.ParseXml
@@ -34,6 +35,7 @@ import Genshi.Lemmas.ParseContent
 import Genshi.Lemmas.ParsePos
 import Genshi.Lemmas.ParseSplit
 import Genshi.Lemmas.ParseKinds
+import Genshi.Lemmas.ParseState
 namespace Genshi.Props.C07
 open Genshi Genshi.Parse
 
@@ -114,6 +116,18 @@ theorem html_batching_irrelevant (env : Env) (reads reads' : List HtmlRead)
     | none => rfl
     | some e => rw [hh] at hn; simp at hn
   rw [a3 hnone, b3 hnone]
+
+/-- **The anchored state.** After any batch of callbacks that completes (played into the empty queue
+    from the initial state, `feed`), `_open_tags` is exactly the stack of elements that the enqueued
+    events have opened and not yet closed, and it holds no void element. -/
+theorem open_tags_is_nesting_stack (env : Env) (items : List (Item HtmlCb)) (o : List Str) (q : Stream)
+    (h : feed (htmlLayer env) [] [] items = .ok (o, q)) :
+    balance [] q = some (o.map mkQName) ∧ ∀ t ∈ o, env.void.contains t = false := by
+  rw [feed_nil_eq_run] at h
+  refine ⟨run_html_balance env items [] o q h, ?_⟩
+  have := run_html_noVoid env items [] o q h rfl
+  simp only [noVoid, List.all_eq_true, Bool.not_eq_true'] at this
+  exact this
 
 /-- "delivers a well-formed event stream" as a tree statement: the stream of a parse that finishes
     is the flattening of exactly one forest of elements whose leaves are the non START/END events. -/
@@ -590,6 +604,20 @@ example : flattenList (mergeForest (toNodesList [XNode.elem ['a'] [] [] [.chars 
 /-- `ab` in one call or as `a`, `b` over two reads: hypothesis of `html_text_cutting_irrelevant` -/
 example (env : Env) : mergeData (htmlData env) (htmlItems [.text [.cb (.data ['a'])], .text [.cb (.data ['b']), .cb (.endtag ['p'])]] []) =
     mergeData (htmlData env) (htmlItems [.text [.cb (.data ['a', 'b']), .cb (.endtag ['p'])]] []) := rfl
+
+/-- `handle_pi` on the test-suite inputs: `<?php echo "Foobar" ?>`, `<?php?>`, `<?php ?>` -/
+example : piEvent ['p','h','p',' ','e','c','h','o',' ','"','F','o','o','b','a','r','"',' ','?'] =
+      .pi ['p','h','p'] ['e','c','h','o',' ','"','F','o','o','b','a','r','"'] ∧
+    piEvent ['p','h','p','?'] = .pi ['p','h','p'] [] ∧ piEvent ['p','h','p',' ','?'] = .pi ['p','h','p'] [] ∧
+    piEvent [Char.ofNat 160, 'a', Char.ofNat 0x85, 'b', ' ', 'c'] = .pi ['a'] ['b', ' ', 'c'] := by
+  decide
+
+/-- `handle_charref` / `handle_entityref`: `&#65;`, `&#x41;`, out of range, `&nbsp;`, an unknown name -/
+example : charrefText ['6','5'] = .ok ['A'] ∧ charrefText ['x','4','1'] = .ok ['A'] ∧
+    charrefText ['1','1','1','4','1','1','2'] = .error valueError ∧
+    charrefText ['9','9','9','9','9','9','9','9','9','9','9'] = .error overflowError ∧
+    entityrefText ['n','b','s','p'] = [Char.ofNat 160] ∧ entityrefText ['j'] = ['&','j',';'] := by
+  refine ⟨by rfl, by rfl, by rfl, by rfl, by decide, by decide⟩
 
 /-- positions: two reads, text merged across them keeps the first position, the closers re-use the last -/
 example :
